@@ -9,7 +9,7 @@
 From Coq Require Import ZArith List Bool String QArith Qcanon.
 From QV.Core Require Import OF QcOF Sums Mat.
 From QV.Model Require Import C20_Schedule C20_Run C20_PreFix.
-From QV.Proofs Require Import C20_Schedule C20_Tomo C20_Run C20_PreFix.
+From QV.Proofs Require Import C20_Schedule C20_Tomo C20_Run C20_PreFix C20_Exec.
 Import ListNotations.
 
 (* ---------------------------------------------------------------- Experiment: acceptance *)
@@ -178,6 +178,27 @@ Theorem C20_class_shapeb_iff : forall t ns np s, class_shapeb t ns np s = true <
 Proof. exact class_shapeb_iff. Qed.
 Print Assumptions C20_class_shapeb_iff.
 
+(* ---------------------------------------------------------------- the property's last clause in one statement *)
+(* "every accepted schedule that ends in its only POVM can be executed and yields a normalised distribution": on a validated
+   experiment without None placeholders calc_prob_dist reaches the composition for every valid index, and the distribution of a
+   POVM-terminated schedule sums to one (reference semantics; any ring, dimension, physical objects) *)
+Theorem C20_accepted_povm_schedule_executes_normalised : forall (R : CR) (dim : nat) (tr : @vec R) (O : @objects R) e n s,
+  physical dim tr O -> valid_exp e -> all_present (e_cfg e) -> nth_error (e_scheds e) n = Some s ->
+  exists t, s = sched_of t /\ calc_prob_dist_pre e (PInt (Z.of_nat n)) = CRun t /\
+            (ends_in_povm t = true -> lsum (run_dist dim O t) = c1 R).
+Proof. exact @accepted_povm_schedule_executes_normalised. Qed.
+Print Assumptions C20_accepted_povm_schedule_executes_normalised.
+(* tomography classes: every schedule of an ACCEPTED schedule list ends in the POVM, hits the estimated object's None
+   placeholder (ValueError) as constructed, and executes to a normalised distribution once the estimated object is filled in *)
+Theorem C20_tomo_schedule_executes_normalised : forall (R : CR) (dim : nat) (tr : @vec R) (O : @objects R) t ns np ss n s,
+  physical dim tr O -> tomo_construct t ns np (AList ss) = TOk -> nth_error ss n = Some s ->
+  exists items, s = sched_of items /\ ends_in_povm items = true /\
+    (exists p, calc_prob_dist_pre (mkexp (class_cfg t ns np) ss) (PInt (Z.of_nat n)) = CValueError p) /\
+    calc_prob_dist_pre (mkexp (class_cfg_filled t ns np) ss) (PInt (Z.of_nat n)) = CRun items /\
+    lsum (run_dist dim O items) = c1 R.
+Proof. exact @tomo_schedule_executes_normalised. Qed.
+Print Assumptions C20_tomo_schedule_executes_normalised.
+
 (* ---------------------------------------------------------------- the code as it was BEFORE the two repairs
    (Model/C20_PreFix.v: validate_schedules0, tomo_run0 — NOT what the harness compares the implementation with; the harness
    consults these definitions only to recognise that a disagreement is exactly one of the two recorded defects) *)
@@ -271,4 +292,18 @@ Proof.
   - ring.
   - ring.
   - ring.
+Qed.
+(* the hypotheses of the two execution theorems are satisfiable: a validated experiment without placeholders, an accepted
+   QPT schedule list *)
+Definition ex_cfg_full : cfg := mkcfg [true] [true; true] [true; true] [true].
+Example C20_example_executes :
+  valid_exp (mkexp ex_cfg_full ex_good) /\ all_present ex_cfg_full /\
+  calc_prob_dist_pre (mkexp ex_cfg_full ex_good) (PInt 0) = CRun [(KState, 0); (KGate, 1); (KMprocess, 0); (KPovm, 1)]%Z /\
+  tomo_construct Qpt 2 3 (AList [sched_of [(KState, 1); (KGate, 0); (KPovm, 2)]%Z]) = TOk /\
+  calc_prob_dist_pre (mkexp (class_cfg Qpt 2 3) [sched_of [(KState, 1); (KGate, 0); (KPovm, 2)]%Z]) (PInt 0) = CValueError 1 /\
+  calc_prob_dist_pre (mkexp (class_cfg_filled Qpt 2 3) [sched_of [(KState, 1); (KGate, 0); (KPovm, 2)]%Z]) (PInt 0) =
+    CRun [(KState, 1); (KGate, 0); (KPovm, 2)]%Z.
+Proof.
+  split; [apply experiment_accepts_iff; reflexivity|]. split; [|repeat split; reflexivity].
+  intros k b H. destruct k; cbn in H; repeat (destruct H as [H|H]; [now subst|]); contradiction.
 Qed.
